@@ -55,6 +55,12 @@ func init() {
 			for _, r := range decidedBranches(fn) {
 				fmt.Println("DECIDED", FuncName(fn), w.InstrPos(r.In), r.What)
 			}
+			for _, r := range selfComparisons(fn) {
+				fmt.Println("SELFCMP", FuncName(fn), w.InstrPos(r.In), r.What)
+			}
+			for _, r := range crossAppends(fn) {
+				fmt.Println("CROSSAPPEND", FuncName(fn), w.InstrPos(r.In), r.What)
+			}
 		}
 		fmt.Println("functions", n)
 	}
